@@ -16,8 +16,8 @@ def project(v, c, o):
     if o.get("unmodelled"):
         return (True, True)
     verdict, content, total, preserved = v
-    # C11 speaks about accepted messages only; verdict questions belong to C13
-    return (content, preserved)
+    # an acceptable message that was rejected (or made the decoder panic) has not been preserved either
+    return (verdict and content, preserved)
 
 
 def gen(kind, rng, tier):
